@@ -1141,6 +1141,8 @@ func genReify(g *Gen, mode string) {
 				cfgData, fix = lateFailure(r, t)
 			} else if isList && tcfg.Validators && r.P(1, 3) {
 				t, cfgData, fix = keptInvalid(r)
+			} else if tcfg.Validators && (i == 5 || i == 6 || r.P(1, 24)) {
+				t, cfgData, fix = ptrEmptyMap(r)
 			} else if tcfg.Validators && r.P(1, 12) {
 				t, cfgData, fix = ptrInvalid(r)
 			} else if tcfg.Handling && (i < 4 || r.P(1, 16)) {
@@ -1326,7 +1328,8 @@ func mapOfArrays(r *Rng) (*tyNode, map[string]interface{}, func(reflect.Value)) 
 		{GoName: "M", CTag: "m", T: &tyNode{Kind: "map", Elem: at}},
 		{GoName: "S", CTag: "s", T: &tyNode{Kind: "map", Elem: st}},
 		{GoName: "A", CTag: "a", T: at},
-		{GoName: "Z", CTag: "z", T: intT}}}
+		{GoName: "Z", CTag: "z", T: intT},
+		{GoName: "P", CTag: "p", T: &tyNode{Kind: "slice", Elem: &tyNode{Kind: "ptr", Elem: el}}}}}
 	part := func() interface{} {
 		switch r.Intn(3) {
 		case 0:
@@ -1339,7 +1342,8 @@ func mapOfArrays(r *Rng) (*tyNode, map[string]interface{}, func(reflect.Value)) 
 	cfg := map[string]interface{}{"z": int64(1),
 		"m": map[string]interface{}{"a": []interface{}{part(), part()}},
 		"s": map[string]interface{}{"a": []interface{}{part()}},
-		"a": []interface{}{part(), part()}}
+		"a": []interface{}{part(), part()},
+		"p": []interface{}{part(), part()}}
 	if r.Bool() {
 		cfg["m"].(map[string]interface{})["c"] = []interface{}{part(), part()}
 	}
@@ -1364,6 +1368,14 @@ func mapOfArrays(r *Rng) (*tyNode, map[string]interface{}, func(reflect.Value)) 
 		sm.SetMapIndex(reflect.ValueOf("a"), sl)
 		v.Field(1).Set(sm)
 		v.Field(2).Set(arr)
+		// a list of pointers to structs, merged by index: the entries keep what is not mentioned
+		pl := reflect.MakeSlice(v.Field(4).Type(), 3, 3)
+		for k := 0; k < 3; k++ {
+			e := reflect.New(el.goType())
+			e.Elem().Set(mk(fmt.Sprintf("p%d", k), 70+k))
+			pl.Index(k).Set(e)
+		}
+		v.Field(4).Set(pl)
 	}
 	return t, cfg, fix
 }
@@ -1447,6 +1459,38 @@ func ifaceTagged(r *Rng) (*tyNode, map[string]interface{}, func(reflect.Value)) 
 	return t, cfg, func(v reflect.Value) {
 		v.Field(2).Set(reflect.ValueOf("pre")) // a required field that holds something already
 	}
+}
+
+// ptrEmptyMap: nil pointers to maps and lists under nonzero / required; the configuration gives the
+// setting an empty (or unsuitable) value: the fresh value behind the pointer is validated like one
+// held directly
+func ptrEmptyMap(r *Rng) (*tyNode, map[string]interface{}, func(reflect.Value)) {
+	vt := []string{"nonzero", "required", "nonzero"}[r.Intn(3)]
+	mt := &tyNode{Kind: "map", Elem: &tyNode{Kind: "iface"}}
+	lt := &tyNode{Kind: "slice", Elem: &tyNode{Kind: "prim", Prim: primKinds[1]}}
+	inner := []*tyNode{mt, lt}[r.Intn(2)]
+	pt := &tyNode{Kind: "ptr", Elem: inner}
+	if r.P(1, 4) {
+		pt = &tyNode{Kind: "ptr", Elem: pt}
+	}
+	t := &tyNode{Kind: "struct", Fields: []tyField{
+		{GoName: "P", CTag: "p", VTag: vt, T: pt},
+		{GoName: "Q", CTag: "q", VTag: vt, T: inner},
+		{GoName: "Z", CTag: "z", T: &tyNode{Kind: "prim", Prim: primKinds[1]}}}}
+	val := func() interface{} {
+		if inner == mt {
+			return []interface{}{map[string]interface{}{}, []interface{}{"x", "y"}, map[string]interface{}{"k": int64(1)}}[r.Intn(3)]
+		}
+		return []interface{}{[]interface{}{}, []interface{}{int64(1)}}[r.Intn(2)]
+	}
+	cfg := map[string]interface{}{"z": int64(5)}
+	if r.P(3, 4) {
+		cfg["p"] = val()
+	}
+	if r.P(1, 2) {
+		cfg["q"] = val()
+	}
+	return t, cfg, nil
 }
 
 // ptrInvalid: a pre-filled pointer field under a validator about the value it points to; the
